@@ -219,6 +219,12 @@ func (c *Ctx) authnRedirect(endpoint, relay, keyName, method string, idp *saml.I
 				}
 			}
 			if idp != nil && endpoint == idpSSOURL {
+				if method != "" {
+					// an SP that signs is known to the IdP by the metadata it publishes itself (AuthnRequestsSigned and all)
+					cp := *idp
+					cp.ServiceProviderProvider = &rollingRegistry{md: s.Metadata()}
+					idp = &cp
+				}
 				r, rerr := http.NewRequest("GET", u.String(), nil)
 				var req *saml.IdpAuthnRequest
 				err := rerr
@@ -739,6 +745,12 @@ func (c *Ctx) genC12() {
 	}
 	for _, nid := range relayStates {
 		c.logoutRedirect(idpEndpoints[0], "rs", nid, "sp", "", false)
+	}
+	// signed requests too: the IdP of this library parses and validates what the SP of this library signs and sends
+	for _, m := range []string{dsig.RSASHA1SignatureMethod, dsig.RSASHA256SignatureMethod} {
+		for _, rs := range []string{"", "rs", "a b&c=d"} {
+			c.authnRedirect(idpSSOURL, rs, "sp", m, idp)
+		}
 	}
 	// long name IDs of multi-byte characters, shifted byte by byte: whatever internal buffer size the serialisation goes
 	// through (4 kB in etree's writer), some character straddles its boundary in one of the variants
